@@ -56,6 +56,15 @@ impl TryFrom<CompressionWithLevel> for Compressor {
     type Error = Error;
 
     fn try_from(value: CompressionWithLevel) -> Result<Self, Self::Error> {
+        // the gzip, xz and bzip2 encoder constructors panic (or misbehave) outside these ranges
+        let level_supported = match value {
+            CompressionWithLevel::None | CompressionWithLevel::Zstd(_) => true,
+            CompressionWithLevel::Gzip(level) | CompressionWithLevel::Xz(level) => level <= 9,
+            CompressionWithLevel::Bzip2(level) => (1..=9).contains(&level),
+        };
+        if !level_supported {
+            return Err(Error::UnsupportedCompressionLevel(value.to_string()));
+        }
         match value {
             CompressionWithLevel::None => Ok(Compressor::None(Vec::new())),
             #[cfg(feature = "gzip-compression")]
